@@ -6,6 +6,7 @@ import (
 	"go/token"
 	"go/types"
 	"os"
+	"regexp"
 	"sort"
 	"strings"
 
@@ -312,6 +313,11 @@ func exprAt(f *ssa.Function, pos token.Pos, kind string) string {
 	return ""
 }
 
+var ssaNumRe = regexp.MustCompile(`φ[0-9]+|\bt[0-9]+`)
+
+// stableName removes SSA register numbers from a diagnostic rendering (keys must survive unrelated edits).
+func stableName(s string) string { return ssaNumRe.ReplaceAllString(s, "") }
+
 func clip(s string) string {
 	s = strings.Join(strings.Fields(s), " ")
 	if len(s) > 90 {
@@ -446,7 +452,12 @@ func (e *Engine) Obligations(f *ssa.Function) []*Obl {
 				o.Why += " (call site: " + e.paramMaybeNil[p] + ")"
 			}
 		}
-		o.Expr = a.valName(v)
+		// stable key text: the source construct when it can be located, else the value rendering without
+		// SSA register numbers
+		o.Expr = stableName(a.valName(v))
+		if src := exprAt(f, ins.Pos(), "nil"); src != "" {
+			o.Expr = src + " <- " + o.Expr
+		}
 		out = append(out, o)
 	}
 	for _, b := range a.rpo {
